@@ -262,8 +262,8 @@ class MirGen:
         loops = [['v', step]]
         for j in range(1, nlv):
             e = self.operand(bi)
-            if e == inits[j] and e[0] == 'v':
-                e = ['v', names[j]]            # avoid "initial value == loop value == the same variable" (finding)
+            if r.chance(1, 5):
+                e = inits[j]                   # an unchanging loop variable (bound to its optimised initial value)
             loops.append(e)
         if body and body[-1][0] == 'brk':
             pass
@@ -397,7 +397,7 @@ def deep(ck, tier, seed):
             continue
         for j, row in zip(shards[si], rows):
             pn, before, after, where = cases[j]
-            status, wf, unproved, escape, sem_ok, sem_bad = row
+            status, wf, unproved, escape, sem_ok, sem_bad, inv_bad = row
             st = stats.setdefault(pn + (':synthetic' if 'synthetic' in where else ''), {'cases': 0, 'agree': 0, 'declined': 0, 'wf': 0, 'proved_path': 0, 'changed': 0, 'sem_ok': 0})
             st['cases'] += 1
             st['wf'] += wf
@@ -417,6 +417,10 @@ def deep(ck, tier, seed):
                             {'pass': pn, 'function': where.get('function', 'synthetic #%s' % where.get('synthetic')), 'before': before, 'sources': src},
                             'Passes.%s (see theories/C02deep/Passes.v)' % pn, after,
                             how='vh mir-dump on the sources, passes=%s' % CHAIN)
+            if inv_bad:
+                ck.disagree('C02deep: the invariant between rounds (no + / - overflow is preserved, Props.C02deep_*_add) fails after %s' % pn,
+                            {'pass': pn, 'function': where.get('function', 'synthetic'), 'before': before},
+                            'sem Add before = Done -> sem Add after = the same Done', after)
             if escape:
                 ck.disagree('C02deep: %s re-emitted a Break outside of its loop' % pn,
                             {'pass': pn, 'function': where.get('function', 'synthetic'), 'before': before}, 'no escaping break', after)
